@@ -88,3 +88,9 @@ Proof.
   destruct x_walker_shape_ok as (_ & _ & Hi & He & _). rewrite Hi, He. repeat split; reflexivity.
 Qed.
 Print Assumptions C13_src_walker_resolves_or_fails.
+
+(* ---- more glue on this property's path, pinned token for token ---- *)
+From XcpPins Require Import Pin_operations_tree_walker.
+Theorem C13_src_pin_operations_tree_walker : pin_unchanged name_operations_tree_walker.
+Proof. exact pin_operations_tree_walker. Qed.
+Print Assumptions C13_src_pin_operations_tree_walker.
